@@ -139,6 +139,90 @@ CHECKS = {
         note="As C01; format of products that re-create management data by "
              "design is judged on UID/lock/OTP/reserved/out-of-area bytes "
              "only."),
+    'C05': dict(
+        category='model_checking', design='2/C05',
+        technique="explicit-state BFS over real LLC objects with canonical "
+                  "state dumps, plus stateless deviation-bounded schedule "
+                  "exploration of blocking calls",
+        text="(1) BFS: every history of non-blocking send/recv/poll/busy and "
+             "link exchange events on one data link connection between two "
+             "real LogicalLinkControllers until the frontier is empty for the "
+             "message budget (RW 1..15, sequence numbers wrap past 16, both "
+             "directions at once), each transition checked against a wire "
+             "model (N(S)/N(R), window, no FRMR) and the delivered order; "
+             "snapshots are validated against history replay. (2) Threads: "
+             "both link loops plus blocking senders/receivers (and a "
+             "busy-toggling thread) under every schedule with <= 2 (thorough "
+             "3) deviations.",
+        note="NFC-DEP replaced by sim/llcpump.py / sim/pairmac.py; close() is "
+             "only exercised in C09; 'random walks' of the quantifier are not "
+             "done (sampling)."),
+    'C12': dict(
+        category='fault_enumeration', design='2/C12',
+        technique="deviation-bounded exhaustive enumeration of block fate "
+                  "scripts (deliver/lose/corrupt, S(WTX)) against a reference "
+                  "ISO 14443-4 PICC with an execution-counting APDU executor",
+        text="Real Type4ATag/Type4BTag (real activation) exchange three "
+             "non-idempotent APDUs with a rule-following reference card; for "
+             "Type A/B x FSCI 0..8 x FWI (retry budgets 5/3/1/0) x command and "
+             "response lengths around multiples of FSC-3 every script with "
+             "<= 2 (thorough 3) lost/corrupted blocks or WTX requests is "
+             "executed; the card must execute each APDU at most once, a "
+             "returned response must be that execution's, failures must be "
+             "Type4TagCommandError, no block may exceed FSC.",
+        note="The reference PICC (sim/picc.py) is the trusted base; the "
+             "'must succeed' set is defined conservatively (2f-1 <= budget) "
+             "and documented in the driver."),
+    'C13': dict(
+        category='fault_enumeration', design='2/C13',
+        technique="exhaustive single-deviation (thorough: double) fault "
+                  "injection at every host command of an exchange over "
+                  "stateful chipset responders",
+        text="Real drivers (pn531/532/533, rcs956, rcs380, acr122, arygon A/B "
+             "through their real init handshakes, udp over in-memory sockets) "
+             "with a target of each kind established through the real "
+             "sense_*/listen_*; at every host command of "
+             "ContactlessFrontend.exchange() one deviation (status 1..255, "
+             "error frame, RC-S380 communication status bits, host errno on "
+             "write/ACK/response, missing ACK, truncation at every length, "
+             "wrong code/TFI, garbled fields, malformed datagrams) is "
+             "injected; only data, CommunicationError subclasses with the "
+             "documented mapping, or IOError may come out.",
+        note="Chipset behaviour is sim/chipsets.py (written from the drivers' "
+             "expectations and the frame formats)."),
+    'C14': dict(
+        category='exploration', design='2/C14',
+        technique="exhaustive enumeration of command codes x payload lengths "
+                  "and of response-frame mutations against an independent "
+                  "frame validator and bitwise CRC reference",
+        text="Every command frame written by the PN53x family, ACR122 and "
+             "RC-S380 drivers for every code x payload length (both sides of "
+             "the extended-format switch) is validated by an independent "
+             "frame validator; every bit flip, truncation, extension, "
+             "insertion, byte substitution and checksum/postamble pair of "
+             "valid PN53x/ACR122 responses (also through the real TTY.read) "
+             "must be rejected with IOError unless the validator accepts it; "
+             "CRC_A/B helpers and the drivers' CRC checks are compared with a "
+             "bitwise ISO 14443-3 reference on all short messages, all "
+             "trailers and all 1-/2-bit flips of longer frames.",
+        note="ref/hostframe.py and ref/crc.py are the trusted base (CRC "
+             "checked against the ISO annex vectors)."),
+    'C20': dict(
+        category='fault_enumeration', design='2/C20',
+        technique="exhaustive enumeration of key/password/challenge grids and "
+                  "of single-bit (thorough: double-bit) in-transit "
+                  "modifications against tag models with an independent MAC",
+        text="Real FelicaLite, FelicaLiteS and NTAG21x objects on tag models "
+             "whose session key/MAC/MAC_A computation is written independently "
+             "from the manual; authenticate is true exactly for the matching "
+             "key over all key/password pairs, protect-then-authenticate "
+             "succeeds only with the same password, and every single-bit flip "
+             "and byte substitution of every response of authenticate, "
+             "read_with_mac and the NDEF read path must be detected (no "
+             "modified octet returned).",
+        note="Only the single-block DES primitive (pyDes) is shared with the "
+             "library and cross-checked against openssl; not an adaptive "
+             "forger."),
 }
 
 NOT_YET = "check not built yet in this round (see DESIGN.md section 2 for the planned design)"
